@@ -61,11 +61,22 @@ type Contract struct {
 	Ghosts   []string // universally quantified ghost parameters ("name sort")
 	FreshResult bool
 	Uses    []*Clause // lemma instantiations assumed at entry (each must be a proved lemma/axiom instance)
+	AtCalls []*AtCall // obligations on the arguments of calls made by this function (argument flow)
 	Wrap    bool    // "arith wrap": + - * are encoded with exact wrap-around instead of no-wrap obligations
 	FnSplit *Clause // function-level case split (over the entry state)
 	FnSplitLo, FnSplitHi int
 	Stamps  []*Stamp  // ghost stamps recorded at every send on a channel
 	Exports []*Clause // int-mode postconditions of a bv-mode function (justified by bridge obligations)
+}
+
+// AtCall: "atcall[Cxx] <callee> /regex/: cond" - at every call of callee in this
+// function whose first argument is a string constant matching regex, cond must
+// hold; a0, a1, ... are the arguments, argreal(s, k) / argint(s, k) / argstr(s, k)
+// read element k of a variadic ...interface{} argument s.
+type AtCall struct {
+	Callee string
+	Re     *regexp.Regexp
+	Clause *Clause
 }
 
 // Stamp: "stamp ch: expr" records the value of expr (an Int) alongside every
@@ -150,7 +161,7 @@ var keywords = map[string]bool{
 	"decreases": true, "loop": true, "mode": true, "inline": true, "assume-contract": true, "pure": true,
 	"let": true, "define": true, "declare": true, "axiom": true, "lemma": true, "owned": true, "model": true,
 	"global": true, "nosafety": true, "assert": true, "split": true, "guarded_by": true, "ghostparam": true,
-	"fresh-result": true, "use": true, "exports": true, "rawaxiom": true, "stamp": true, "defpred": true, "recfun": true, "arith": true,
+	"fresh-result": true, "use": true, "exports": true, "rawaxiom": true, "stamp": true, "defpred": true, "recfun": true, "arith": true, "atcall": true,
 }
 
 // rewriteImplies turns the infix "A ==> B" (lowest precedence, right
@@ -617,6 +628,30 @@ func (lib *SpecLib) loadFile(path, pkgPath string) error {
 				}
 			}
 			lib.Axioms = append(lib.Axioms, ax)
+		case "atcall":
+			if cur == nil {
+				return fmt.Errorf("%s: atcall outside func", it.where)
+			}
+			rest := it.rest
+			var props string
+			if m := propRe.FindStringSubmatch(rest); m != nil {
+				props = m[0]
+				rest = rest[len(m[0]):]
+			}
+			re := regexp.MustCompile(`^(\S+)\s+/(.*?)/\s*:\s*(.+)$`)
+			m := re.FindStringSubmatch(rest)
+			if m == nil {
+				return fmt.Errorf("%s: bad atcall (want: atcall[Cxx] callee /regex/: cond)", it.where)
+			}
+			c, err := mkClause(props+m[3], it.where)
+			if err != nil {
+				return err
+			}
+			rx, err := regexp.Compile(m[2])
+			if err != nil {
+				return fmt.Errorf("%s: %v", it.where, err)
+			}
+			cur.AtCalls = append(cur.AtCalls, &AtCall{Callee: m[1], Re: rx, Clause: c})
 		case "stamp":
 			parts := strings.SplitN(it.rest, ":", 2)
 			if cur == nil || len(parts) != 2 {
